@@ -112,6 +112,7 @@ pub proof fn lemma_ew_duality(g: &SymbolicAsyncGraph, a0: ISet<Pt>, b0: ISet<Pt>
     requires wf_graph(g)
     ensures neg(g, au_of(g, neg(g, b0), neg(g, a0).intersect(neg(g, b0)), l)) =~= ew_spec(g, a0, b0, l)
 {
+    reveal(wf_graph);
     let u = unit_of(g);
     let a = within(g, a0);
     let b = within(g, b0);
